@@ -345,6 +345,10 @@ theorem C21_fact_cache_per_instance :
 theorem C21_fact_shard_size_cases :
     Thanos.Facts.shardSizeCases = ["TenantMatcherTypeExact, \"\"", "TenantMatcherGlob"] := by decide
 
+/-- the set of already selected endpoints is a map keyed by the (ring-global) endpoint index: membership is
+    exact for every index, as `selected.contains` in `pickOne` -/
+theorem C21_fact_selected_set : Thanos.Facts.shardSelectedInit = "make(map[uint64]struct{})" := by decide
+
 /-- how many nodes are taken per zone -/
 theorem C21_fact_take :
     Thanos.Facts.shardTake = ["if:s.shuffleShardingConfig.ZoneAwarenessDisabled", "take = ss", "else",
